@@ -245,6 +245,9 @@ package getoptions
 //@       ==> N0().ChildOptions[k].Called
 //@     step opt.consumed {C03,C05}: Parsing() && LooksLikeOption(Tok()) && !$exit && !$returned && (forall j int :: 0 <= j && j < len(optPair) ==> !Unresolved(N0(), optPair[j].Option))
 //@       ==> eqseq(N0().ChildText, old_iter(N0().ChildText)) && UnkSameIter(N0())
+//@     step opt.unknown.recorded {C08}: Parsing() && LooksLikeOption(Tok()) && !$exit && !$returned
+//@       && (exists j int :: 0 <= j && j < len(optPair) && Unresolved(N0(), optPair[j].Option))
+//@       ==> len(N0().UnknownOptions) > old_iter(len(N0().UnknownOptions))
 //@     step opt.once {C03}: Parsing() && LooksLikeOption(Tok()) && !$exit ==> currentProgramNode == N0() && OthersSameIter(N0())
 //@       && (eqseq(N0().ChildText, old_iter(N0().ChildText)) || isappend1(N0().ChildText, old_iter(N0().ChildText), Tok()))
 //@     step opt.kept {C08,C03}: Parsing() && LooksLikeOption(Tok()) && !$exit && len(N0().UnknownOptions) > old_iter(len(N0().UnknownOptions)) && PassOrWarn(N0())
@@ -294,6 +297,8 @@ package getoptions
 //@     invariant pairs.kept {C08,C03}: len(currentProgramNode.UnknownOptions) > old_loop(len(currentProgramNode.UnknownOptions)) && PassOrWarn(currentProgramNode)
 //@       ==> isappend1(currentProgramNode.ChildText, old_loop(currentProgramNode.ChildText), args[old_loop(iterator.idx)])
 //@     invariant pairs.unk: len(currentProgramNode.UnknownOptions) >= old_loop(len(currentProgramNode.UnknownOptions))
+//@     invariant pairs.unkrec {C08}: (exists j int :: 0 <= j && j <= $idx && Unresolved(currentProgramNode, optPair[j].Option))
+//@       ==> len(currentProgramNode.UnknownOptions) > old_loop(len(currentProgramNode.UnknownOptions))
 //@     invariant pairs.clean {C03,C05}: (forall j int :: 0 <= j && j <= $idx ==> !Unresolved(currentProgramNode, optPair[j].Option))
 //@       ==> identical(currentProgramNode.ChildText, old_loop(currentProgramNode.ChildText)) && identical(currentProgramNode.UnknownOptions, old_loop(currentProgramNode.UnknownOptions))
 //@     invariant pairs.first {C01,C05,C06}: $idx >= 0 ==> (forall k string :: Resolves(currentProgramNode, optPair[0].Option, k) ==> currentProgramNode.ChildOptions[k].Called)
